@@ -176,3 +176,22 @@ def make_sym_poly(tables, spec, prefix, complex_coeffs=False):
             blocks[deg][pos] = c
             ref[tuple(k)] = c
     return blocks, ref
+
+
+def pcompose(a, subs, max_deg):
+    """a(subs_0(z), ..., subs_5(z)) truncated at total degree max_deg; subs are dict polynomials."""
+    pw_cache = {}
+
+    def power(i, n):
+        key = (i, n)
+        if key not in pw_cache:
+            pw_cache[key] = {(0,) * NV: Sym.const(1)} if n == 0 else pmul(power(i, n - 1), subs[i], max_deg)
+        return pw_cache[key]
+    r = {}
+    for k, v in a.items():
+        term = {(0,) * NV: v}
+        for i in range(NV):
+            if k[i]:
+                term = pmul(term, power(i, k[i]), max_deg)
+        r = padd(r, term)
+    return r
